@@ -192,6 +192,12 @@ func (s *vmeSUT) apply(ev map[string]any) (res map[string]any, silent bool, err 
 			return map[string]any{"ok": false, "key": "", "seq": 0, "status": ""}, false, nil
 		}
 		if err != nil {
+			// a rejection by the reducer / FSM itself is a reply the specification does not
+			// have; anything else (timeouts, routing) is trouble of the environment
+			if errors.Is(err, metadb.ErrStaleMeta) || errors.Is(err, metadb.ErrInvalidArgument) ||
+				errors.Is(err, metadb.ErrNotFound) || errors.Is(err, metadb.ErrCorruptValue) {
+				return map[string]any{"ok": false, "key": "refused: " + err.Error(), "seq": 0, "status": ""}, false, nil
+			}
 			return nil, false, fmt.Errorf("AppendMessageEvent: %w", err)
 		}
 		if typ == "snapshot" {
